@@ -37,6 +37,19 @@ def save(i, m):
     json.dump(m, open(meta_path(i), "w"), indent=1, sort_keys=True)
 
 
+def related(i):
+    """Checks whose property is anchored in a file the patch touches (for controls: all of them must stay silent)."""
+    import re
+    files = set(re.findall(r"^\+\+\+ b/(\S+)", open(os.path.join(VERIF, "seeded", i, "patch.diff")).read(), re.M))
+    claimed = set(os.path.basename(p)[:3].upper() for p in os.listdir(os.path.join(VERIF, "checks")) if re.match(r"c\d\d\.py$", p))
+    out = []
+    for l in open(os.path.join(VERIF, "properties.jsonl")):
+        pr = json.loads(l)
+        if pr["id"] in claimed and files & set(pr["anchors"]["files"]):
+            out.append(pr["id"])
+    return out
+
+
 def adopt(i, pid, wt):
     d = os.path.join(VERIF, "seeded", i)
     os.makedirs(d, exist_ok=True)
@@ -46,12 +59,14 @@ def adopt(i, pid, wt):
             shutil.copy(src, os.path.join(d, f))
     m = load(i)
     m.update({"property": pid, "source": "independent sub-agent given only the property text and a scratch worktree"})
+    if i.startswith("n-"):
+        m["kind"] = "control"   # a change under which the property still holds: every related check must stay silent
     save(i, m)
 
 
 def suite(cwd):
     junit = os.path.join(cwd, "_junit.xml")
-    r = sh([PY, "-m", "pytest", "-q", "-p", "no:cacheprovider", "--timeout=900", "--continue-on-collection-errors", "--junitxml=" + junit], cwd=cwd, timeout=3000)
+    r = sh(["flock", "/tmp/ioflo-suite.lock", PY, "-m", "pytest", "-q", "-p", "no:cacheprovider", "--timeout=900", "--continue-on-collection-errors", "--junitxml=" + junit], cwd=cwd, timeout=3000)
     import xml.etree.ElementTree as ET
     passed = set()
     try:
@@ -86,7 +101,10 @@ def verify(i):
                          "baseline_tests_no_longer_passing": lost, "demo_tail_with_patch": r1.stdout[-400:],
                          "ran": "git worktree add %s HEAD; demo.py; git apply patch.diff; demo.py; pinned pytest command; worktree removed" % wt,
                          "hardcoded_worktree_in_demo": "/tmp/wt-" in text}
-        ok = r0.returncode == 0 and r1.returncode != 0 and not lost
+        if m.get("kind") == "control":
+            ok = r0.returncode == 0 and r1.returncode == 0 and not lost
+        else:
+            ok = r0.returncode == 0 and r1.returncode != 0 and not lost
         m["confirmed"] = ok
         print(i, "CONFIRMED" if ok else "NOT CONFIRMED", json.dumps(m["verified"], indent=1)[:1500])
     finally:
@@ -98,7 +116,7 @@ def verify(i):
 def run(i, tier, pids):
     d = os.path.join(VERIF, "seeded", i)
     m = load(i)
-    pids = pids or [m["property"]]
+    pids = pids or (sorted(set([m["property"]] + related(i))) if m.get("kind") == "control" else [m["property"]])
     st = sh(["git", "-C", "/repo", "status", "--porcelain", "--untracked-files=no"]).stdout.strip()
     assert not st, "/repo not clean: " + st
     a = sh(["git", "-C", "/repo", "apply", os.path.join(d, "patch.diff")])
@@ -108,13 +126,16 @@ def run(i, tier, pids):
         for pid in pids:
             t0 = time.time()
             r = sh([os.path.join(VERIF, "bin", "check"), pid, "--tier", tier], cwd=VERIF, env=dict(os.environ, VERIF_NO_EVIDENCE="1"), timeout=7200)
-            lines = [l for l in r.stdout.splitlines() if l.startswith(("VIOLATION", "HARNESS", "  kind", "KNOWN"))][:6]
+            lines = [l[:600] for l in r.stdout.splitlines() if l.startswith(("VIOLATION", "HARNESS", "  kind", "KNOWN", "  detail"))][:8]
             res["%s/%s" % (pid, tier)] = {"rc": r.returncode, "wall_s": round(time.time() - t0, 1), "lines": lines}
             print(i, pid, tier, "rc=%d" % r.returncode, lines[:2])
     finally:
         sh(["git", "-C", "/repo", "checkout", "--", "."])
         own = res.get("%s/%s" % (m["property"], tier))
-        if own:
+        if m.get("kind") == "control":
+            alarms = sorted(k for k, v in res.items() if k.endswith("/" + tier) and v["rc"] != 0)
+            m[tier] = "silent" if not alarms else "ALARM: " + ", ".join(alarms)
+        elif own:
             m[tier] = "caught" if own["rc"] == 1 else ("missed" if own["rc"] == 0 else "harness-error")
         m["caught_by"] = ", ".join(sorted(set(k.split("/")[0] + " (" + k.split("/")[1] + ")" for k, v in res.items() if v["rc"] == 1)))
         save(i, m)
@@ -124,7 +145,7 @@ def pre(i, tier, pids):
     """Preliminary: the same as run but against a scratch copy (VERIF_REPO) instead of /repo; nothing recorded."""
     d = os.path.join(VERIF, "seeded", i)
     m = load(i)
-    pids = pids or [m["property"]]
+    pids = pids or (sorted(set([m["property"]] + related(i))) if m.get("kind") == "control" else [m["property"]])
     tmp = "/tmp/sc-" + i
     shutil.rmtree(tmp, ignore_errors=True)
     os.makedirs(tmp)
